@@ -69,7 +69,8 @@ def whole_sequence_variants(ptype: int, rnd: random.Random, preset, nsdecl: bool
 
 
 def writer_campaign(tier: str, seed: int, *, sims=None, n_beh=None, hist_len=None, subs_per_beh=1, judge=True,
-                    parse_entries=("flat",), whole=True):
+                    parse_entries=("flat",), whole=True, rdflib_share=False):
+    """rdflib_share: every second behaviour of the RDF 1.1 universes is replayed through the rdflib term encoder (properties that cover both integrations)."""
     rnd = random.Random(seed)
     sims = sims or list(U.SIM)
     n_beh = n_beh or (40 if tier == "quick" else 400)
@@ -95,9 +96,10 @@ def writer_campaign(tier: str, seed: int, *, sims=None, n_beh=None, hist_len=Non
             for si in range(subs_per_beh):
                 sub = subs[(bi + si) % len(subs)]
                 delim = (bi % 4 != 3) or c["PType"] == 3 or bool(c["FrameSize"])
-                res = writer.replay_stepwise(beh, c, sub, delimited=delim,
+                integ = "rdflib" if (rdflib_share and uni.startswith("r11") and bi % 2) else "generic"
+                res = writer.replay_stepwise(beh, c, sub, delimited=delim, integ=integ,
                                              frame_size=(None if bi % 3 else rnd.choice([1, 2, 3, 7])))
-                case = Case({"universe": uni, "entry": "stepwise", "sub": sub.label, "delimited": delim, "beh": bi},
+                case = Case({"universe": uni, "entry": "stepwise", "sub": sub.label, "delimited": delim, "beh": bi, **({"integ": "rdflib"} if integ == "rdflib" else {})},
                             res["accepted"])
                 case.data, case.delimited = res["bytes"], delim
                 d = writer.compare_rows(beh, res["per_op"], sub, U.PFX_ATOMS)
